@@ -70,7 +70,7 @@ def reference_schedule(name):
     return ['bg:before_lock', 'bg:done', 'query1:before_lock']
 
 
-def run_scenario(name, sched=None, hold=False, jitter=None, variant='hooks', timeout=20.0, jitter_max_us=None):
+def run_scenario(name, sched=None, hold=False, jitter=None, variant='hooks', timeout=20.0, jitter_max_us=None, _retry=False):
     """Runs one scenario under one schedule.  Returns dict(out, err, rc, trace, timed_out, deadlock, hold_released)."""
     args, stdin, parent, stub_out, known, guess = SCENARIOS[name]
     w = runner.workdir()
@@ -137,6 +137,14 @@ def run_scenario(name, sched=None, hold=False, jitter=None, variant='hooks', tim
     if stub_out is not None:
         os.unlink(env['VERIF_STUB_OUT'])
     res.update({'out': out, 'err': err, 'rc': proc.returncode, 'trace': trace})
+    if res['timed_out'] and not res['deadlock'] and not _retry:
+        # threads were busy, not asleep: a slow machine or a thread that spins. One more try with four times the time
+        # settles it (these inputs are a few hundred bytes)
+        again = run_scenario(name, sched=sched, hold=hold, jitter=jitter, variant=variant, timeout=4 * timeout, jitter_max_us=jitter_max_us, _retry=True)
+        again['retried'] = True
+        if again['timed_out'] and not again['deadlock']:
+            again['no_termination'] = True
+        return again
     return res
 
 
@@ -317,6 +325,9 @@ def evaluate(name, r, label, reference_out=None):
         if r['deadlock']:
             return violated('c20:deadlock:' + label.split('#')[0], 'no progress: all threads sleep in futex and consume no CPU (%s, schedule %s)' % (name, label),
                             extra={'trace': r['trace'][-20:]}, counters=counters, sets=sets)
+        if r.get('no_termination'):
+            return violated('c20:no-termination:' + label.split('#')[0], 'no termination within %s s, twice, on an input of a few hundred bytes; the threads are not asleep (a spin or livelock) '
+                            '(%s, schedule %s)' % ('20 and 80', name, label), extra={'trace': r['trace'][-20:]}, counters=counters, sets=sets)
         return inconclusive('watchdog fired (%s, %s) but the threads were not all asleep' % (name, label), counters=counters, sets=sets)
     c = crashmod.classify(rr)
     if c is not None:
